@@ -1544,6 +1544,8 @@ class BaseSpaceImpl(*_base_space_impl_base):
     def on_delete(self):
         for cells in self.cells.values():
             cells.clear_all_values(clear_input=True)
+            # Clear also the values calculated through uncached cells
+            self.model.clear_obj(cells)
             cells.on_delete()
         super().on_delete()
 
